@@ -154,12 +154,25 @@ func firstChildMain() {
 		if len(bytes.TrimSpace(line)) > 0 {
 			var fc firstCase
 			var o firstObs
+			var b []byte
 			if e := json.Unmarshal(line, &fc); e != nil {
 				o.Err = "bad job: " + e.Error()
+			} else if fc.Kind == "entropy" {
+				// construction under a faulty entropy source (entropy.go)
+				var ec entropyCase
+				eo := entropyObs{}
+				if e := json.Unmarshal(line, &ec); e != nil {
+					eo.Err = "bad job: " + e.Error()
+				} else {
+					eo = childEntropy(&ec)
+				}
+				b, _ = json.Marshal(eo)
 			} else {
 				o = childFirst(&fc)
 			}
-			b, _ := json.Marshal(o)
+			if b == nil {
+				b, _ = json.Marshal(o)
+			}
 			out.Write(b)
 			out.WriteByte('\n')
 			out.Flush()
@@ -540,6 +553,22 @@ func stopFirstChild() {
 
 // askFirstChild runs one batch in the child (firstMu held). died = the process crashed or did not answer in time.
 func askFirstChild(fc *firstCase, limit time.Duration) (o *firstObs, died bool, detail string) {
+	line, died, detail := askChildRaw(fc, limit)
+	if died {
+		return nil, true, detail
+	}
+	var obs firstObs
+	if e := json.Unmarshal(line, &obs); e != nil {
+		core.Fatalf("C18: unreadable reply from the child: %v", e)
+	}
+	if obs.Err != "" {
+		core.Fatalf("C18: child: %s", obs.Err)
+	}
+	return &obs, false, ""
+}
+
+// askChildRaw sends one job (a case object) to the child and returns its one-line answer (firstMu held).
+func askChildRaw(job any, limit time.Duration) (line []byte, died bool, detail string) {
 	if theFirstChild == nil {
 		ch, err := startFirstChild()
 		if err != nil {
@@ -548,7 +577,7 @@ func askFirstChild(fc *firstCase, limit time.Duration) (o *firstObs, died bool, 
 		theFirstChild = ch
 	}
 	ch := theFirstChild
-	b, _ := json.Marshal(fc)
+	b, _ := json.Marshal(job)
 	if _, werr := ch.in.Write(append(b, '\n')); werr != nil {
 		ch.cmd.Process.Kill()
 		ch.cmd.Wait()
@@ -571,14 +600,7 @@ func askFirstChild(fc *firstCase, limit time.Duration) (o *firstObs, died bool, 
 			theFirstChild = nil
 			return nil, true, "the process running the code under test died: " + ch.stderr.String()
 		}
-		var obs firstObs
-		if e := json.Unmarshal(r.line, &obs); e != nil {
-			core.Fatalf("C18: unreadable reply from the child: %v", e)
-		}
-		if obs.Err != "" {
-			core.Fatalf("C18: child: %s", obs.Err)
-		}
-		return &obs, false, ""
+		return r.line, false, ""
 	case <-time.After(limit):
 		ch.cmd.Process.Kill()
 		ch.cmd.Wait()
